@@ -66,6 +66,12 @@ func runC13(c *core.Ctx) {
 		ownEncodeRules(sub, newAliasAnalysis(sub.Prog), "C12-ENCODE")
 		poolRules(sub)
 	}, nil)
+	// a builder keeps what it is given and writes nothing back into it: a setter that appends to (or otherwise edits) the
+	// slice the caller handed in makes two builders configured from one slice write the same backing array - the setter
+	// rules of C09 (a setter stores its arguments as they are and returns the builder)
+	importRulesFn(c, "C09", "C13-SHARED", func(sub *core.Ctx) { buildExtras(sub) }, func(o core.Obligation) bool {
+		return o.Rule == "C09-BUILD" && strings.HasPrefix(o.Key, "BatchDataCodingEncoder.")
+	})
 	// positive fixture
 	overlay := map[string][]byte{c.Prog.Dir + "/packet/zz_verif_fixture.go": []byte(c13Fixture)}
 	fprog, err := load.LoadOverlay(c.Prog.Dir, "", overlay)
